@@ -19,6 +19,8 @@ ALLOWED_AXIOMS = {'propext', 'Classical.choice', 'Quot.sound'}
 FORBIDDEN = re.compile(r'\bsorry\b|\badmit\b|^\s*axiom\s|native_decide|bv_decide|implemented_by|\bunsafe\s|maxHeartbeats\s+0')
 ENV = dict(os.environ, CARGO_NET_OFFLINE='true')
 NCPU = os.cpu_count() or 4
+# properties whose case lines the translated-model driver drv_algo understands
+ALGO_PROPS = {'C01', 'C03', 'C04', 'C05', 'C06', 'C08', 'C09', 'C10', 'C11', 'C13'}
 
 
 def sh(cmd, cwd=None, timeout=None, input=None):
@@ -110,9 +112,9 @@ def cargo_build(pid=None):
 # ------------------------------------------------------------------------------------------------
 # correspondence
 
-def run_driver(pid, case_file, shards):
+def run_driver(pid, case_file, shards, exe_name=None):
     """returns list of verdict lines (one per case line)"""
-    exe = os.path.join(LEAN, '.lake', 'build', 'bin', 'drv_' + pid.lower())
+    exe = os.path.join(LEAN, '.lake', 'build', 'bin', exe_name or ('drv_' + pid.lower()))
     lines = open(case_file).read().split('\n')
     if lines and lines[-1] == '':
         lines.pop()
@@ -272,6 +274,34 @@ def check(pid, tier, seed):
         if bad:
             broken_ties.append('driver could not process %d cases, e.g. %s -> %s' % (len(bad), bad[0][0][:200], bad[0][1][:200]))
 
+    # 3b. the TRANSLATED model (lean/BddVerif/Gen/Algo.lean, regenerated from the Rust text by
+    # tools/rust2lean.py) replays the same observations: statement-by-statement Lean of the current source
+    algo = {'handled': 0, 'agree': 0, 'disagree': 0}
+    if pid in ALGO_PROPS and lines:
+        if 'Algo.lean' in regen.get('broken', {}):
+            broken_ties.append('translator:Algo.lean: ' + regen['broken']['Algo.lean'])
+        else:
+            ok_algo, out_algo = lake_build(['drv_algo'])
+            if not ok_algo:
+                broken_ties.append('translated model Gen/Algo.lean (regenerated from the current source) does not compile: ' + out_algo[-500:])
+            else:
+                _, averd = run_driver(pid, case_file, NCPU, exe_name='drv_algo')
+                adis = []
+                for line, v in zip(lines, averd):
+                    parts = v.split(' ', 3)
+                    if len(parts) > 2 and parts[2] == 'skip':
+                        continue
+                    algo['handled'] += 1
+                    if parts[0] == 'OK':
+                        algo['agree'] += 1
+                    else:
+                        algo['disagree'] += 1
+                        adis.append((line, v))
+                if adis:
+                    adis.sort(key=lambda x: len(x[0]))
+                    broken_ties.append('translated model (Gen/Algo.lean) disagrees with the implementation on %d of %d handled cases, e.g. %s -> %s' % (len(adis), algo['handled'], adis[0][0][:300], adis[0][1][:200]))
+                    dis = dis + [(l, v, 'translated-model ' + v[:200]) for l, v in adis[:20]]
+
     # 4. classification (DESIGN.md §6)
     known = known_findings(pid)
     known_sigs = {f['signature']: f for f in known}
@@ -347,6 +377,7 @@ def check(pid, tier, seed):
             'outcomes': dict(stats),
             'input_distribution': dict(tags.most_common(40)),
             'regenerated_files': regen.get('files', {}),
+            'translated_model_replay': algo if pid in ALGO_PROPS else 'not applicable (no translated function for this property)',
             'broken_ties': broken_ties[:20],
             'exhaustive': bool(entry.get('exhaustive_' + tier, False)),
             'notes': notes,
@@ -396,7 +427,7 @@ def setup():
     targets = []
     for p in claimed:
         targets += ['BddVerif.Props.' + p, 'BddVerif.Audit.' + p, 'drv_' + p.lower()]
-    ok, out = lake_build(targets)
+    ok, out = lake_build(targets + ['drv_algo'])
     if not ok:
         print(out[-3000:])
         for p in claimed:
